@@ -372,7 +372,9 @@ def bounded(tier, seed, R):
                     {'a': a, 'b': b})
     R.guard('concatenate/post#0:post_concatenate', lambda: TX.concatenate('a', ((1, 2),)) == VALUE_ERROR, {'nested': True})
     # TEXT against the rational oracle
-    fmts = ['0', '0.0', '0.00', '#', '#.#', '#.##', '0.0#', '#,##0', '#,##0.00', '0%', '0.0%', '0.00%', '00.0', '000']
+    fmts = ['0', '0.0', '0.00', '#', '#.#', '#.##', '0.0#', '#,##0', '#,##0.00', '0%', '0.0%', '0.00%', '00.0', '000',
+            # zeros that are grouped like digits (0,000 shows 12 as 0,012)
+            '0,000', '00,000', '0,000.00', '#,#00', '000,000,000']
     ks = set()
     for base in (0, 1, 5, 15, 25, 125, 285, 995, 1005, 12345, 99995, 1234565, 250000, 999999):
         for dlt in (-1, 0, 1):
